@@ -158,6 +158,8 @@ macro_rules! dispatch_type {
             "SynQ" => $ref_m!($crate::synth::SynQ, $req),
             "SynI" => $ref_m!($crate::synth::SynI, $req),
             "SynT" => $ref_m!($crate::synth::SynT, $req),
+            #[cfg(not(feature = "fpdec"))]
+            "SynE" => $ref_m!($crate::synth::SynE, $req),
             "SynTwo" => $noref_m!($crate::synth::SynTwo, $req),
             "SynFive" => $noref_m!($crate::synth::SynFive, $req),
             "SynOne" => $single_m!($crate::synth::SynOne, $req),
@@ -202,6 +204,9 @@ pub fn type_list() -> Vec<(&'static str, &'static str)> {
         ("SynFive", "noref"),
         ("SynOne", "single"),
     ];
+    if !cfg!(feature = "fpdec") {
+        v.push(("SynE", "ref"));
+    }
     if cfg!(feature = "astro") {
         v.extend([("astro::Mass", "ref"), ("astro::Length", "ref"), ("astro::Duration", "ref"), ("astro::Speed", "ref")]);
     }
